@@ -383,7 +383,9 @@ func genHistory(t *Tape, k *Knobs, m mix, n int) []Step {
 				devs++
 			case t.Chance(40):
 				d := Step{Op: "device_decide", G: t.Intn(devs * 2), V: t.Pick([]string{"accept", "accept", "accept", "reject"})}
-				if t.Chance(25) { // partial consent on the verification page
+				if t.Chance(20) {
+					d.P = map[string]string{"fresh_session": "1"} // the verification page installs a NEW session for the user it just identified
+				} else if t.Chance(25) { // partial consent on the verification page
 					d.P = map[string]string{}
 					if t.Bool() {
 						d.P["grant_first"] = fmt.Sprint(t.Intn(3))
@@ -600,6 +602,16 @@ func init() {
 	// C02: binding of the code to client / redirect_uri / lifetime; immutable grant
 	hist("c02", "C02", mix{authz: 16, hybrid: 5, redeem: 14, redeemBad: 22, refresh: 4, introspect: 6, advance: 12, par: 8, parRedirect: 40, pkce: 15}, 10, 36, func(t *Tape, k *Knobs) {
 		k.Clients[1].RedirectURIs = append(k.Clients[1].RedirectURIs, "https://app-b.sim/other")
+		if t.Chance(40) {
+			// per-client token lifespans: they govern tokens, never how long the CODE stays redeemable
+			ls := map[string]int64{}
+			for _, key := range []string{"authorization_code:access_token", "authorization_code:refresh_token", "authorization_code:id_token", "refresh_token:access_token"} {
+				if t.Bool() {
+					ls[key] = int64(t.Range(1800, 90000))
+				}
+			}
+			k.Clients[t.Intn(len(k.Clients))].Lifespans = ls
+		}
 	})
 	// C03: PKCE attempt sequences under every enforcement configuration
 	hist("c03", "C03", mix{authz: 16, hybrid: 6, redeem: 40, redeemBad: 4, advance: 3, introspect: 1, par: 7, pkce: 65, pkceBad: 60}, 8, 28, func(t *Tape, k *Knobs) {
@@ -609,6 +621,24 @@ func init() {
 	})
 	// C04: rotation and reuse across several independent grants of all origins
 	hist("c04", "C04", mix{authz: 10, hybrid: 4, redeem: 14, refresh: 26, refreshOld: 12, refreshForeign: 3, introspect: 4, revoke: 3, advance: 5, password: 5, device: 14, pkce: 10}, 16, 55, nil)
+	{
+		// motifs appended to a share of the C04 histories (rare as random draws, central to the statement): a reuse presented
+		// AFTER the reused generation's own expiry, and a reuse of a generation several rotations old
+		base := Profiles["c04"].Gen
+		Profiles["c04"].Gen = func(t *Tape) *Plan {
+			p := base(t)
+			if t.Chance(30) {
+				gap := Step{Op: "advance", D: int64(t.Range(5, 40)) * 60 * 1000} // generations are minted minutes apart, so they expire apart
+				p.Steps = append(p.Steps, st("password", t.Intn(2), 0, "scope", "offline photos"), gap,
+					Step{Op: "refresh", C: -1, V: "latest"}, gap, Step{Op: "refresh", C: -1, V: "latest"})
+				if t.Bool() {
+					p.Steps = append(p.Steps, Step{Op: "advance", V: "rt", G: 2, D: int64(t.Range(2100, 20000)), P: map[string]string{"from_end": "1"}}) // just after the expiry of the generation before last
+				}
+				p.Steps = append(p.Steps, Step{Op: "refresh", C: -1, V: "latest", G: t.Range(1, 2)}, Step{Op: "introspect", C: 0, G: t.Intn(40)}, Step{Op: "refresh", C: -1, V: "latest"})
+			}
+			return p
+		}
+	}
 	// C05: refresh never widens / crosses clients; registration changes; refresh-scope configuration; scope strategies
 	hist("c05", "C05", mix{authz: 10, hybrid: 3, redeem: 14, refresh: 22, refreshOld: 2, refreshForeign: 10, introspect: 5, advance: 4, password: 6, device: 8, clientChange: 8, cc: 2, pkce: 10}, 14, 50, func(t *Tape, k *Knobs) {
 		k.ScopeStrategy = t.Pick([]string{"", "exact", "hierarchic", "wildcard"})
@@ -678,6 +708,20 @@ func init() {
 	}
 	recov("c01f", "c01", 12, []string{"plain", "plain", "tx"})
 	recov("c04f", "c04", 10, []string{"plain", "plain", "tx"})
+	{
+		// motif: reuse handling itself meets a failure (at a named call), then the reuse is presented again without faults
+		base := Profiles["c04f"].Gen
+		Profiles["c04f"].Gen = func(t *Tape) *Plan {
+			p := base(t)
+			if t.Chance(25) {
+				kinds := []string{"store-err", "store-err", "lost-ack", "crash-after", "store-notfound"}
+				p.Steps = append(p.Steps, st("password", t.Intn(2), 0, "scope", "offline photos"), Step{Op: "refresh", C: -1, V: "latest"},
+					Step{Op: "refresh", C: -1, V: "latest", G: 1, F: &FaultSpec{Kind: t.Pick(kinds), At: -1, Call: t.Pick([]string{"RevokeAccessToken", "RevokeRefreshToken", "DeleteRefreshTokenSession"})}},
+					Step{Op: "refresh", C: -1, V: "latest", G: t.Intn(2)}, Step{Op: "refresh", C: -1, V: "latest", G: t.Intn(2)})
+			}
+			return p
+		}
+	}
 	recov("c16f", "c16", 10, nil)
 	recov("c17f", "c17", 15, []string{"plain", "plain", "tx"})
 	recov("c02f", "c02", 10, nil)
